@@ -73,6 +73,10 @@ func (recognizer *EnvelopeDetector) OnColumn(ctx context.Context, inBuffer []byt
 		outBuffer = append(outBuffer, inBuffer[inIndex:beginTagIndex]...)
 		inIndex = beginTagIndex
 		n, container, err := ExtractSerializedContainer(inBuffer[inIndex:])
+		if err == nil && (n <= 0 || n > len(inBuffer)-inIndex) {
+			// declared length does not fit into the rest of the column: not a container
+			err = ErrIncorrectSerializedContainer
+		}
 		if err != nil {
 			outBuffer = append(outBuffer, inBuffer[inIndex])
 			inIndex++
